@@ -1,6 +1,7 @@
 package checks
 
 import (
+	"os"
 	"fmt"
 	"sort"
 	"strings"
@@ -195,8 +196,12 @@ func classifyEq(prop string, o eqOutcome) string {
 
 // runShapes explores every shape and handles the outcomes.
 func runShapes(r *Run, shapes []Shape, o eqOpts, perShapePaths int) {
+	only := os.Getenv("VERIF_SHAPE") // developer aid: run the shapes whose name contains this text
 	for _, sh := range shapes {
 		sh := sh
+		if only != "" && !strings.Contains(sh.Name, only) {
+			continue
+		}
 		var diffs []eqOutcome
 		ok, excl, inc, syn := 0, 0, 0, 0
 		var whys []string
